@@ -1,12 +1,14 @@
 (* C18 -- UTF-8 codec (src/utf.c): property theorems over the model coq/C18/UtfDefs.v.
    Nothing here but statements closed by `exact`; proofs are in coq/C18/*.v.
+   The vocabulary (model functions, utf8_len / utf8_table / spec_decode / nlead / take_conts,
+   bytes_ok, walk, valid_cp, encode_all) is all defined in coq/C18/UtfDefs.v.
    Conventions: bytes are N (bytes_ok s: every element < 256); `decode s num want` is a_utf_decode
    on memory s with exactly num bytes made available (every read goes through a checked accessor:
    DOver = a byte at index >= num was read); `want` = (val != NULL); DRet r v: return value r,
    v = Some c iff *val = c was stored. *)
 From Coq Require Import NArith List.
 From LibaV Require Import C18.UtfDefs C18.UtfDecProofs C18.UtfDecTheorems C18.UtfRoundTrip
-  C18.UtfLenProofs C18.UtfMain.
+  C18.UtfLenProofs C18.UtfLen2Proofs C18.UtfMain.
 Import ListNotations.
 Local Open Scope N_scope.
 
@@ -120,3 +122,24 @@ Theorem C18_encode_overwrite_detected : forall x l,
   0 < x < 2147483648 -> N.of_nat (length l) < utf8_len x -> a_utf_encode x (Some l) = EOver.
 Proof. exact main_encode_overwrite_detected. Qed.
 Print Assumptions C18_encode_overwrite_detected.
+
+(* 12. on a well-formed string (the concatenated encodings of any code points 1 .. 2^31-1) both
+       counters return the number of code points and a_utf_length consumes the whole string *)
+Theorem C18_length_on_encoded : forall xs w,
+  Forall valid_cp xs -> N.of_nat (length (encode_all xs)) < SZ ->
+  a_utf_length (encode_all xs) (N.of_nat (length (encode_all xs))) w =
+  NRet (N.of_nat (length xs)) (if w then Some (N.of_nat (length (encode_all xs))) else None).
+Proof. exact length_on_encoded. Qed.
+Print Assumptions C18_length_on_encoded.
+
+Theorem C18_length__on_encoded : forall xs,
+  Forall valid_cp xs -> N.of_nat (length (encode_all xs)) < SZ ->
+  a_utf_length_ (encode_all xs) (N.of_nat (length (encode_all xs))) = NRet (N.of_nat (length xs)) None.
+Proof. exact length__on_encoded. Qed.
+Print Assumptions C18_length__on_encoded.
+
+(* 13. a_utf_length_ (non-validating) never reads a byte at an index >= num, for any byte string *)
+Theorem C18_length__no_overread : forall s num,
+  num <= N.of_nat (length s) -> exists l, a_utf_length_ s num = NRet l None.
+Proof. exact length__no_overread. Qed.
+Print Assumptions C18_length__no_overread.
